@@ -402,6 +402,14 @@ class Graph(object):
                 self._hessian[hessian_col_idx: hessian_col_idx + cols, hessian_row_idx: hessian_row_idx + rows] = np.transpose(contrib)
                 # fmt: on
 
+        # A fixed vertex always gets an identity diagonal block, even when no edge constrains it
+        for v in self._vertices:
+            if v.gradient_index in self._fixed_gradient_indices:
+                dim = v.pose.COMPACT_DIMENSIONALITY
+                # fmt: off
+                self._hessian[v.gradient_index: v.gradient_index + dim, v.gradient_index: v.gradient_index + dim] = np.eye(dim)
+                # fmt: on
+
     def optimize(self, tol=1e-4, max_iter=20, fix_first_pose=True, verbose=True):
         r"""Optimize the :math:`\chi^2` error for the ``Graph``.
 
